@@ -26,7 +26,7 @@ ASSUMPTIONS = ['uniformity of coefficients is reduced to "each coefficient is on
 
 
 def budget(tier):
-    return dict(shards=16, examples=30 if tier == 'quick' else 500)
+    return dict(shards=16, examples=45 if tier == 'quick' else 500)
 
 
 @st.composite
